@@ -25,6 +25,19 @@ package scen
 // stream as a DHT stream, so only the per-message mode check keeps a client
 // from serving it.
 //
+// What the remote proposes (c13_nego.go): the remote does not pick the stream's
+// protocol ID, it PROPOSES a list of IDs and the host answers from its handler
+// table (simhost.Host.Negotiate, faithful to a real host's multistream muxer
+// including handlers registered with a match function). The proposals are
+// drawn: the node's exact ID alone (benign), or 1-3 IDs out of the exact one
+// and look-alikes derived from it (other revisions of the trailing version,
+// longer / shorter IDs, another network's, another spelling). The node's own ID
+// is an input too: /sim/kad/1.0.0, with a protocol extension
+// (/sim/lan/kad/1.0.0) or a legacy override without a version (/sim/legacy-dht).
+// An "inbound DHT stream" is, for every rule below, a stream the host handed to
+// the DHT's handler, whatever ID it was negotiated under; no rule looks at the
+// ID. On the unchanged tree only the exact ID is ever accepted.
+//
 // Mode model (the oracle's, derived from the property text only): fixed modes
 // are constant; auto modes start as client (ModeAuto) / server (ModeAutoServer)
 // and afterwards follow the LAST reachability event: public => server,
@@ -54,7 +67,8 @@ package scen
 //   fixed-mode-changed           fixed modes never change (handler table is the observable)
 //   auto-mode-wrong              auto modes: mode after any event sequence = f(last event)
 //   stray-handler                in client mode the host has no DHT handler at all
-//   open-at-demotion-not-reset   inbound DHT streams open at a switch to client are reset
+//   open-at-demotion-not-reset   inbound DHT streams open at a switch to client are reset (every stream handed
+//                                to the DHT handler whose protocol ID was set by then, under whatever ID)
 //   client-served                a request readable within a client epoch gets no response
 //   client-request-stream-open   ... and its stream is ended by the node (reset in the real code; not left open)
 //   server-unanswered            a request readable within a server epoch is answered
@@ -87,6 +101,8 @@ func init() {
 		Real: []string{"IpfsDHT.New mode selection", "subscriber_notifee reachability handling (real event bus)", "setMode / moveToServerMode / moveToClientMode", "handleNewStream / handleNewMessage per-message mode check", "FIND_NODE and PING handlers", "msgio framing"},
 		Stub: []string{"host.Host handler table, connections and stream lists (simhost)", "streams (simhost.Fabric byte pipes, scheduler-owned delivery)", "remote peers (scripted: honest FIND_NODE / PING frames)", "local reachability (events emitted by the scenario instead of AutoNAT)"},
 		Faults: []string{"fault_split_chunk", "fault_park_writes", "fault_remote_eof", "fault_nego_window",
+			"fault_alien_proposal", "probe_alien_refused_by_server", "probe_alien_refused_by_client", "probe_alien_then_exact_negotiated",
+			"probe_proto_extension", "probe_proto_override",
 			"probe_promotion", "probe_demotion", "probe_demotion_open_streams", "probe_same_mode_event",
 			"probe_request_after_demotion_old_stream", "probe_request_unswept_stream_client", "probe_refused_negotiation_client",
 			"probe_split_across_switch", "probe_inflight_across_switch", "probe_window_across_demotion",
@@ -104,6 +120,7 @@ type c13Req struct {
 
 type c13Stream struct {
 	name      string
+	proto     protocol.ID // the ID the stream was negotiated under
 	peer      *simnet.Peer
 	a, b      *simhost.Stream // a: scripted remote end, b: the node's (inbound) end
 	handler   network.StreamHandler
@@ -165,6 +182,20 @@ func runC13(s *sim.Sim) {
 	reqsLeft := s.Range("requests", 1, 12)
 	eofLeft := s.Draw("eofs", 3)
 	preEvent := s.Chance("pre-event", 1, 4)
+	// the node's own DHT protocol ID (public options; value 0/1: the plain one)
+	exact := c13Proto
+	protoOpts := []dht.Option{dht.ProtocolPrefix("/sim")}
+	switch s.Draw("proto-cfg", 4) {
+	case 2:
+		exact = "/sim/lan/kad/1.0.0"
+		protoOpts = append(protoOpts, dht.ProtocolExtension("/lan"))
+		s.Count("probe_proto_extension")
+	case 3:
+		exact = "/sim/legacy-dht"
+		protoOpts = append(protoOpts, dht.V1ProtocolOverride(exact))
+		s.Count("probe_proto_override")
+	}
+	aliens := c13AlienIDs(exact)
 
 	u := simnet.NewUniverse(uint64(s.Draw("universe", 1<<16)), nRemotes+2)
 	h := simhost.New(s, u.Self.ID, u.Self.Addrs, u.Name)
@@ -206,12 +237,12 @@ func runC13(s *sim.Sim) {
 		s.Tracef("pre-construction event %v", r)
 	}
 
-	d, err := dht.New(h, dht.ProtocolPrefix("/sim"), dht.Mode(opt), dht.DisableAutoRefresh())
+	d, err := dht.New(h, append(protoOpts, dht.Mode(opt), dht.DisableAutoRefresh())...)
 	if err != nil {
 		panic(err)
 	}
 	s.Quiesce()
-	s.Summary["cfg"] = fmt.Sprintf("mode=%s remotes=%d events=%d streams=%d requests=%d parkWrites=%v preEvent=%v", optNames[oi], nRemotes, eventsLeft, streamsLeft, reqsLeft, fab.ParkWrites, preEvent)
+	s.Summary["cfg"] = fmt.Sprintf("mode=%s proto=%s remotes=%d events=%d streams=%d requests=%d parkWrites=%v preEvent=%v", optNames[oi], exact, nRemotes, eventsLeft, streamsLeft, reqsLeft, fab.ParkWrites, preEvent)
 
 	var streams []*c13Stream
 	lastSwitch := 0
@@ -231,7 +262,7 @@ func runC13(s *sim.Sim) {
 	// observe: the oracle, at a quiescent point.
 	observe := func() {
 		wantServer := c13Expected(opt, last)
-		registered := h.Handler(c13Proto) != nil
+		registered := h.Handler(exact) != nil
 		if registered != wantServer {
 			if fixed {
 				s.Violate("fixed-mode-changed", "option %s: DHT stream handler registered=%v after reachability events (last=%v); a fixed mode never changes", optNames[oi], registered, c13Last(last))
@@ -347,7 +378,7 @@ func runC13(s *sim.Sim) {
 
 	start := func(st *c13Stream) {
 		if !st.protoSet {
-			_ = st.b.SetProtocol(c13Proto)
+			_ = st.b.SetProtocol(st.proto)
 			st.protoSet = true
 		}
 		st.startStep = s.Steps
@@ -432,23 +463,32 @@ func runC13(s *sim.Sim) {
 				q := q
 				acts = append(acts, sim.Action{ID: "open:" + q.Name, Do: func() {
 					streamsLeft--
-					hd := h.Handler(c13Proto)
+					props, alienFirst := c13DrawProposals(s, exact, aliens)
+					id, hd := h.Negotiate(props...)
+					c13CountNegotiation(s, exact, id, props, alienFirst, h.Handler(exact) != nil)
 					if hd == nil {
-						// a real host refuses the protocol negotiation: correct for a client
-						nRefused++
-						s.Count("probe_refused_negotiation_client")
-						s.Tracef("negotiation refused for %s", q.Name)
+						// a real host refuses the protocol negotiation: correct for a
+						// client whatever is proposed, and (the property does not say
+						// otherwise) for a server that is proposed other IDs than its own
+						if h.Handler(exact) == nil {
+							nRefused++
+							s.Count("probe_refused_negotiation_client")
+						}
+						s.Tracef("negotiation refused for %s proposing %s", q.Name, c13ProposalString(props))
 						return
 					}
+					if len(props) > 1 || id != exact {
+						s.Tracef("%s proposes %s: negotiated %q", q.Name, c13ProposalString(props), id)
+					}
 					win := s.Draw("window", 3)
-					p0 := c13Proto
+					p0 := id
 					if win == 1 {
 						p0 = "" // handler looked up, SetProtocol not yet called
 					}
 					conn := h.Net().SetConnected(q.ID, true)
 					a, b := fab.NewPair("in:"+q.Name, p0, q.ID, u.Self.ID, nil, conn)
 					a.Scripted = true
-					st := &c13Stream{name: strings.TrimSuffix(b.Name(), "/b"), peer: q, a: a, b: b, handler: hd, negoStep: s.Steps, protoSet: win != 1, window: win}
+					st := &c13Stream{name: strings.TrimSuffix(b.Name(), "/b"), proto: id, peer: q, a: a, b: b, handler: hd, negoStep: s.Steps, protoSet: win != 1, window: win}
 					streams = append(streams, st)
 					if win == 0 {
 						start(st)
